@@ -62,6 +62,24 @@ theorem C34_inside_and_distinct (S : List Str) (e : Str) (root : Board)
       exact List.append_cancel_right this.2
     exact inter_inj x y nx ny x0 y0 h1
 
+/-- **C34_written_files_survive**: under the hypotheses of `C34_inside_and_distinct` and when moreover no board name and
+    no element of the output path ends in the output extension, no `os.RemoveAll d` is executed after a file at or
+    below `d` has been written: together with the distinctness of the written paths, every board's file is still there
+    when `render` returns — one file per board.  (Without the extra hypothesis: `C34_cx_ext_dir`.) -/
+theorem C34_written_files_survive (S : List Str) (e : Str) (root : Board)
+    (hS : ∀ c ∈ S, Normal c) (hne : S ≠ []) (he : GoodExt e) (hsafe : SafeB root) (hgood : GoodB root)
+    (hSe : ∀ c ∈ S, NE e c) (hnames : NamesNE e root) :
+    NoLateRemoveS (renderB ('/' :: inter S ++ e) root) := by
+  rw [bridgeB e he root S hS hne hsafe]
+  apply noLateRemoveS_map e he _ _ (noLateB root S hgood)
+  intro ev hev
+  have hn := normalB root S hS hsafe ev hev
+  have hp : S <+: ev.path := List.IsPrefix.trans (prefix_boardPath S root) (insideB root S ev hev)
+  refine ⟨fun c hc => (hn c hc).2.1, ?_, neB e he root S hSe hnames ev hev⟩
+  intro h0
+  rw [h0] at hp
+  exact hne (List.prefix_nil.mp hp)
+
 def s (x : String) : Str := x.toList
 
 /-- the hypotheses are satisfiable and the conclusion is about real paths: root with layers `a` (with a sub-layer) and `b` -/
@@ -80,6 +98,15 @@ example : SafeB okTree ∧ GoodB okTree ∧ (∀ c ∈ [s "w", s "out", s "o"], 
   · simp [okTree, GoodB, GoodL, namesOK, indexOK, s, Board.name, sIndex]
   · simp [Normal, NoSlash, s, dot, dotdot]
   · exact ⟨s "svg", by decide, by decide, by decide⟩
+
+/-- … and those of `C34_written_files_survive` -/
+example : NamesNE (s ".svg") okTree ∧ (∀ c ∈ [s "w", s "out", s "o"], NE (s ".svg") c) := by
+  refine ⟨?_, ?_⟩
+  · simp only [okTree, NamesNE, NamesNEL, NE, and_true]
+    refine ⟨?_, ⟨?_, ?_⟩, ?_⟩ <;> decide
+  · intro c hc
+    simp only [List.mem_cons, List.not_mem_nil, or_false] at hc
+    rcases hc with h | h | h <;> subst h <;> unfold NE <;> decide
 
 /-- root board `x` with one layer named `../../victim` that has a sub-layer `z` -/
 def cxDotdot : Board := .mk [] false [.mk (s "../../victim") false [.mk (s "z") false [] [] []] [] []] [] []
